@@ -55,6 +55,7 @@ type Job struct {
 	ShardN   int
 	Preempt  int
 	Data     int
+	Sched    int
 	BudgetS  float64
 	Choices  []int // replay mode when non-nil
 	Replay   bool
@@ -181,7 +182,7 @@ func RunJob(sc *Scenario, job Job) *JobResult {
 		res.Samples = append(res.Samples, map[string]any{"trace": r.Trace})
 		return res
 	}
-	ex := &vsched.Explorer{Opt: opt, Bounds: vsched.Bounds{Preempt: job.Preempt, Data: job.Data}, ShardI: job.ShardI, ShardN: job.ShardN, Check: check}
+	ex := &vsched.Explorer{Opt: opt, Bounds: vsched.Bounds{Preempt: job.Preempt, Data: job.Data, Sched: job.Sched}, ShardI: job.ShardI, ShardN: job.ShardN, Check: check}
 	if job.BudgetS > 0 {
 		ex.Deadline = time.Now().Add(time.Duration(job.BudgetS * float64(time.Second)))
 	}
@@ -252,7 +253,7 @@ func RunAll(rep *common.Report, jobs []Job, workerArgs []string, procs int) *Tot
 			start := func() error {
 				cmd = exec.CommandContext(context.Background(), self, workerArgs...)
 				cmd.Stderr = &lineFilter{w: os.Stderr}
-				cmd.Env = append(os.Environ(), "GOMAXPROCS=2")
+				cmd.Env = append(os.Environ(), "GOMAXPROCS=1")
 				ip, err := cmd.StdinPipe()
 				if err != nil {
 					return err
